@@ -1,0 +1,20 @@
+//go:build verif
+
+package miner
+
+import (
+	"0chain.net/chaincore/round"
+	"0chain.net/chaincore/threshold/bls"
+)
+
+// Thin exports for the verification harness (engine "crypto", properties C33/C34). No logic here.
+
+// VerifCryptoVerifyVRFShare exposes verifyVRFShare.
+func VerifCryptoVerifyVRFShare(r *Round, vrfs *round.VRFShare, blsMsg string, dkg *bls.DKG) bool {
+	return verifyVRFShare(r, vrfs, blsMsg, dkg)
+}
+
+// VerifCryptoGetVRFShareInfo exposes getVRFShareInfo.
+func VerifCryptoGetVRFShareInfo(mr *Round) ([]string, []string) {
+	return getVRFShareInfo(mr)
+}
